@@ -17,7 +17,8 @@ from checks.common import PoolCheck, delivery_facts, merge, short, jcopy, shrink
 ENTRY_POINTS = ('is_valid', 'iter_errors', 'validate', 'decode', 'decode_lax', 'decode_skip', 'pkg_to_dict_skip', 'cli',
                 'pkg_is_valid', 'pkg_iter_errors', 'pkg_validate', 'pkg_to_dict')
 CHANNELS = ('bytes', 'text', 'bytesio', 'stringio', 'raw', 'raw', 'buffered', 'textio', 'duck', 'openfile', 'openfile_text',
-            'path', 'pathobj', 'fileurl', 'http', 'etree', 'element', 'resource', 'resource_stream')
+            'path', 'pathobj', 'fileurl', 'http', 'etree', 'element', 'resource', 'resource_stream',
+            'lxml_tree', 'lxml_element')
 
 
 class C04(PoolCheck):
@@ -183,6 +184,12 @@ class C04(PoolCheck):
             ref_errs, ref_dec = tree_view(ref_errs), tree_view(ref_dec, data.find(b'xmlns') < 0)
             self.ref_strict = {k: tree_view(v, data.find(b'xmlns') < 0) for k, v in self.ref_strict.items()}
             got = [tree_view(g, data.find(b'xmlns') < 0) for g in got]
+        if src['ch'] in ('lxml_tree', 'lxml_element'):
+            # an lxml tree knows the namespaces in scope (so QName values and xsi:type resolve as in the text),
+            # but not WHERE a prefix was (re)declared: the '@xmlns' items of decoded data are left out
+            ref_errs, ref_dec = strip_xmlns(ref_errs), strip_xmlns(ref_dec)
+            self.ref_strict = {k: strip_xmlns(v) for k, v in self.ref_strict.items()}
+            got = [strip_xmlns(g) for g in got]
         for k, (ep, g) in enumerate(zip(case['eps'], got)):
             sig = self.judge(ep, g, ref_errs, ref_dec)
             if sig is not None:
@@ -362,6 +369,17 @@ def tree_view(res, keep_data=False):
     return res
 
 
+def strip_xmlns(x):
+    if isinstance(x, dict):
+        return {k: strip_xmlns(v) for k, v in x.items()}
+    if isinstance(x, list):
+        if len(x) == 2 and x[0] == 'map' and isinstance(x[1], list):
+            items = [[k, strip_xmlns(v)] for k, v in x[1] if not (isinstance(k, str) and k.startswith('@xmlns'))]
+            return ['map', items] if items or not x[1] else None     # only declarations: decodes to None without them
+        return [strip_xmlns(v) for v in x]
+    return x
+
+
 def chan_class(ch):
     if ch in ('raw', 'buffered', 'textio', 'duck', 'resource_stream', 'openfile', 'openfile_text'):
         return 'stream'
@@ -369,6 +387,8 @@ def chan_class(ch):
         return 'url'
     if ch in ('etree', 'element'):
         return 'tree'
+    if ch in ('lxml_tree', 'lxml_element'):
+        return 'lxml'
     return 'memory'
 
 
